@@ -313,7 +313,13 @@ public:
     }
 
     /** outputs number of discrete elements of T in range*/
-    constexpr uint32_t size() const { return empty() ? 0 : 1 + (finish - start); }
+    constexpr uint32_t size() const
+    {
+        if constexpr (std::is_integral_v<T>)  // modular arithmetic: finish - start may exceed T
+            return empty() ? 0 : 1u + (static_cast<uint32_t>(finish) - static_cast<uint32_t>(start));
+        else
+            return empty() ? 0 : 1 + (finish - start);
+    }
 
     constexpr T first() const { return start; }
     constexpr T last() const { return finish; }
